@@ -827,6 +827,9 @@ def run(ck: common.Check):
         if model is not None and not c.get("gray"):
             compare(lim, c, im, model[idx])
     ck.extra["steps_observed"] = nsteps
+    # the source-translated validator bodies (T17) against the real functions called directly
+    from harness.corr import _c07_genval
+    _c07_genval.run_stream(ck, drv)
     # the precondition of the minMax operation (numpy: min of a non-empty selection is not greater than its max)
     n_cols = n_bad = 0
     for r in reqs:
